@@ -54,7 +54,13 @@ _cfgmod = None
 _pristine = None
 
 
+_SETUP_DONE = []
+
+
 def setup():
+    if _SETUP_DONE:
+        return
+    _SETUP_DONE.append(1)
     global _cfgmod, _pristine
     import os
 
